@@ -31,7 +31,9 @@ CONSTANTS BlockSize,         \* entries per block: 1024 in the code, 2 to explor
           NSparse, NDense,   \* number of sparse / dense slots
           MaxDepth           \* bound on the length of operation sequences (model checking)
 
-VARIABLE S                   \* [sp : sequence of sparse matrices, dn : sequence of dense matrices]
+VARIABLES S,                 \* [sp : sequence of sparse matrices, dn : sequence of dense matrices]
+          depth              \* number of operations applied so far (bounds model checking; part of the state so that
+                             \* the bound is exact with any number of TLC workers)
 
 NilS == [R |-> 0, C |-> 0, E |-> {}, row |-> <<>>, col |-> <<>>, at |-> <<>>, blocks |-> {}, free |-> <<>>, nb |-> 0]
 NilD == [R |-> 0, C |-> 0, B |-> {}]
@@ -217,9 +219,8 @@ DimsSmall  == {<<1, 2>>, <<2, 2>>, <<2, 3>>}
 DimsMedium == {<<2, 2>>, <<2, 3>>, <<3, 2>>, <<3, 3>>}
 Dims3x3    == {<<2, 3>>, <<3, 3>>}
 
-Init == S = S0
-Next == Step
-DepthBound == TLCGet("level") <= MaxDepth
+Init == S = S0 /\ depth = 0
+Next == depth < MaxDepth /\ Step /\ depth' = depth + 1
 
 (***************************************************************************)
 (* Invariants (per matrix m).                                              *)
